@@ -101,12 +101,17 @@ def stepEw (w : World) (dst a b : Nat) (variant opname : String) (panicOnErr : B
     | .ok (.ok m') => pure (fin (w1.set dst (some m')) "ok")
     | .ok (.error e) => pure (fin w1 (if panicOnErr then "panic" else "err " ++ e.name))
 
+/-- drain from the front, `n` = number of items left (computed once: the lists can be long) -/
+def drainFrom {β : Type} : Nat → List β → List (Nat × β)
+  | _, [] => []
+  | n, x :: xs => (n, x) :: drainFrom (n - 1) xs
+
 /-- consume a double-ended exact-size iterator (= a list) following a pattern of F(ront) /
 B(ack) calls, then drain the rest from the front; returns the items in consumption order,
 each with the `len()` reported *before* the call -/
 def consumeList {β : Type} : List Char → List β → List (Nat × β)
   | _, [] => []
-  | [], x :: xs => (xs.length + 1, x) :: consumeList [] xs
+  | [], x :: xs => drainFrom (xs.length + 1) (x :: xs)
   | 'B' :: ps, x :: xs =>
     let l := x :: xs
     match l.getLast? with
